@@ -223,6 +223,11 @@ def _shapes(tier: str, seed: int) -> List[dict]:
         ("CLambda", gen.path_shape(1), "All", ("Lambda", ("Id", N, ()), ("Compare", "Eq", I, ("Int", "1")))),
         ("CLambda", I, "Any", None),
         ("CLambda", gen.path_shape(2), "Any", None),
+        # long paths inside a lambda: a multi-segment alias key whose root coincides with the lambda variable names the
+        # variable's own members there, not a field (every prefix of the path is rooted at the variable)
+        # (segment names below the root are the fixed letters p / q / r: the alias key's segments are symbolic and can meet them)
+        ("CLambda", I, "Any", ("Lambda", ("Id", N, ()), ("Compare", "Eq", gen.path_shape(2, N, ["p", "q"]), gen.path_shape(3, N, ["p", "q", "r"])))),
+        ("CLambda", gen.path_shape(1, N, ["p"]), "All", ("Lambda", ("Id", N, ()), ("Call", ("Id", "f", ()), [gen.path_shape(3, N, ["p", "q", "r"]), gen.path_shape(1, N, ["q"])]))),
         ("List", [I, ("List", [gen.path_shape(1)]), ("Str", N)]),
         ("Compare", "In", I, ("List", [I, ("Int", "1")])),
         ("UnaryOp", "Not", ("Compare", "Eq", gen.path_shape(2), I)),
@@ -292,8 +297,7 @@ def main() -> int:
                   "alias maps": "8 map shapes: 1-2 keys; key in {identifier, path/1, path/2}; target in {identifier, "
                                 "path, call}", "tree shapes": len(SHAPES),
                   "constructor": f"symbolic picks among {len(CTOR_TEXTS)} concrete alias texts, fresh vs caller-supplied lexer/parser"}
-    run.outside = ["names longer than one character", "maps with more than 2 keys", "nesting deeper than 2",
-                   "multi-segment alias keys rooted at a lambda-bound variable (meaning not fixed by the property)"]
+    run.outside = ["names longer than one character", "maps with more than 2 keys", "nesting deeper than 2"]
     run.assumptions = ["the alias map is given to the real rewriter as a hash-free Mapping (linear == scan) - equivalent to a "
                        "dict for frozen dataclasses with consistent __eq__/__hash__ (C16 checks __eq__)",
                        "symbolic text cannot go through the lexer: the text-parsing constructor is checked on picked texts"]
@@ -310,6 +314,8 @@ def main() -> int:
         which = range(nm) if (sh.get("core") or run.tier == "thorough") else [(i * 2) % nm, (i * 2 + 1) % nm]
         if big:
             which = [0, 2, 5] if sh.get("core") else [(i * 2) % nm]
+        if sh.get("core") and "'Lambda'" in repr(sh["expr"]) and repr(sh["expr"]).count("'Attr'") >= 4:
+            which = sorted(set(which) | {4, 7})       # long paths under a lambda: also the maps with 3-segment keys
         for m in which:
             mp = MAPS[m]
             mh = _shift(mp["holes"], sh["n"])
@@ -322,14 +328,6 @@ def main() -> int:
                 k0 = mp["pairs"][0][0][1][1] + sh["n"]
                 k1 = mp["pairs"][1][0][1][1] + sh["n"]
                 allpre += f" and x{k0} != x{k1}"
-            # multi-segment keys are not rooted at a lambda variable (outside the claim)
-            for k, _ in mp["pairs"]:
-                if k[0] == "Attr":
-                    r = k
-                    while r[0] == "Attr":
-                        r = r[1]
-                    for lv in _lambda_var_holes(sh["expr"]):
-                        allpre += f" and x{r[1][1] + sh['n']} != x{lv}"
             items.append(Item(f"sub{i}_{m}", allp, allpre,
                               f"check_subst({i}, {m}, ({', '.join(names + n2)},))",
                               describe={"expr": sh["expr"], "map": mp["pairs"]}, family="substitution"))
